@@ -56,6 +56,8 @@ ASSUMPTIONS = [
     "coincidences are the subject of the dedicated 'coincident' cases",
     "values come from the shared generator pools (verif/gen.py); _generated is always pinned, no wall-clock value decides anything",
     "the ignore configuration is observed through flow.record.base.IGNORE_FIELDS_FOR_COMPARISON (the property's own anchor) and through behaviour",
+    "FLOW_RECORD_IGNORE is a comma separated list of field names taken literally (value.split(','): no stripping of blanks, no case folding, an empty "
+    "entry is the name '' which matches no field, duplicates collapse; unset or empty = nothing ignored); field names are case sensitive",
 ]
 SHARDS = {"quick": 8, "thorough": 16}
 BUDGET_S = {"quick": 150, "thorough": 900}
@@ -77,7 +79,30 @@ KEY_COINCIDENT = "descriptor-identifier-coincidence-equal"
 KEY_IPFAMILY = "ipaddress-int-pack-loses-family"
 
 
-ENV_IGNORE = [None, "_generated", "_source,_generated", "n", ""]
+ENV_IGNORE = [None, "_generated", "_source,_generated", "n", "", "_generated,userName,EventID", "username,eventid", " userName ,EventID,", "USERNAME,,n,n", "_Generated, _source",
+              "Field9,field9,_classification", ","]
+ENV_NAME_POOL = ["_generated", "_source", "_classification", "_version", "n", "s", "userName", "username", "EventID", "eventid", "Field9", "field9", "USERNAME", "EVENTID", "_Generated",
+                 " userName", "userName ", " n ", "\tn", "", "", "zz_missing", "N", "S", "event ID", "userName;n"]
+
+
+def random_env_value(rng):
+    """a FLOW_RECORD_IGNORE value: names with capitals, digits, leading underscores, surrounding blanks, empty entries, duplicates, a trailing
+    comma, names of fields that do not exist, reserved names"""
+    names = [rng.choice(ENV_NAME_POOL) for _ in range(rng.randint(1, 6))]
+    if rng.random() < 0.3:
+        names.append(rng.choice(names))
+    value = ",".join(names)
+    if rng.random() < 0.25:
+        value += ","
+    if rng.random() < 0.15:
+        value = "," + value
+    return value
+
+
+def parse_env_ignore(value):
+    """The documented form is 'a comma separated list of field names'; the names are taken as they are: no stripping, no case folding,
+    an empty entry is the (matching nothing) name ''.  An unset or empty variable means nothing is ignored."""
+    return set(value.split(",")) if value else set()
 MUT_SHAPES = ("plain", "grouped", "holder")
 WORKER_TIMEOUT_S = 120
 KEY_ENV_EMPTY = "explicit-empty-ignore-falls-back-to-environment"
@@ -123,11 +148,16 @@ def generate(ctx):
         if ctx.mine(idx + 3):  # one shard pays the ~1-2 s of overflowing the record-class cache
             yield {"k": "classcache", "s": subseed("c12", ctx.seed, "classcache", rep)}
         idx += 1
-    for rep in range(ctx.scale(2, 12)):
+    for rep in range(ctx.scale(1, 6)):
         for e in range(len(ENV_IGNORE)):
             if ctx.mine(idx):
-                yield {"k": "envignore", "env": e, "s": subseed("c12", ctx.seed, "envignore", e, rep)}
+                yield {"k": "envignore", "value": ENV_IGNORE[e], "s": subseed("c12", ctx.seed, "envignore", e, rep)}
             idx += 1
+    for rep in range(ctx.scale(8, 60)):
+        if ctx.mine(idx):
+            sd = subseed("c12", ctx.seed, "envignore-random", rep)
+            yield {"k": "envignore", "value": random_env_value(random.Random(sd)), "s": sd}
+        idx += 1
     for shape in MUT_SHAPES:
         for i in range(ctx.scale(30, 600)):
             if ctx.mine(idx):
@@ -1097,7 +1127,7 @@ def env_script(rng):
     ops = [["probe", "initial (environment default in force)"]]
     blocks = []
     blocks.append([["enter", cont(), [], flag()], ["probe", "inside an explicitly empty scope"], ["exit"], ["probe", "after the explicitly empty scope"]])
-    inner = rng.choice([[], ["n"], ["_source"]])
+    inner = rng.choice([[], ["n"], ["_source"], ["username"], ["EventID", "Field9"]])
     blocks.append([["enter", cont(), ["s"], flag()], ["probe", "inside scope {s}"], ["enter", cont(), inner, flag()], ["probe", "inside nested scope %s" % inner], ["exit"],
                    ["probe", "after the nested scope"], ["exit"], ["probe", "after scope {s}"]])
     rng.shuffle(blocks)
@@ -1107,7 +1137,7 @@ def env_script(rng):
     blocks.append([["set", rng.choice(["list", "set", "tuple", "generator", "frozenset", "dict"]), []], ["probe", "after set_ignored_fields_for_comparison(<empty>)"],
                    ["enter", cont(), ["n"], flag()], ["probe", "inside scope {n} over an explicitly empty configuration"], ["exit"],
                    ["probe", "after scope {n}: explicitly empty configuration restored"]])
-    sub = rng.choice([["_generated"], ["_source", "s"], ["n", "_generated"]])
+    sub = rng.choice([["_generated"], ["_source", "s"], ["n", "_generated"], ["userName"], ["eventid", "Field9", "_classification"]])
     blocks.append([["set", cont(), sub], ["probe", "after set_ignored_fields_for_comparison(%s)" % sub], ["enter", cont(), [], flag()],
                    ["probe", "inside an explicitly empty scope over %s" % sub], ["exit"], ["probe", "after the explicitly empty scope: %s restored" % sub]])
     rng.shuffle(blocks)
@@ -1134,36 +1164,53 @@ def env_model(script, default):
 
 def run_envignore(ctx, case):
     rng = random.Random(case["s"])
-    value = ENV_IGNORE[case["env"]]
-    default = set(value.split(",")) if value else set()
+    value = case["value"] if "value" in case else ENV_IGNORE[case["env"]]
+    default = parse_env_ignore(value)
     script = env_script(rng)
     expected = env_model(script, default)
-    env = dict(os.environ)
-    env.pop("FLOW_RECORD_IGNORE", None)
-    if value is not None:
-        env["FLOW_RECORD_IGNORE"] = value
-    pp = env.get("PYTHONPATH", "")
-    if VERIF_DIR not in pp.split(os.pathsep):
-        env["PYTHONPATH"] = VERIF_DIR + (os.pathsep + pp if pp else "")
-    env.setdefault("PYTHONHASHSEED", "0")
-    try:
-        p = subprocess.run([sys.executable, "-W", "ignore", "-m", "verif.worker_c12"], input=json.dumps(script), env=env, cwd=VERIF_DIR, capture_output=True, text=True,
-                           timeout=WORKER_TIMEOUT_S)
-    except subprocess.TimeoutExpired:
-        ctx.require(False, "a C12 environment worker exceeded its %d s watchdog" % WORKER_TIMEOUT_S)
-        return
-    ctx.event("env_workers_run")
-    line = next((ln for ln in p.stdout.splitlines() if ln.startswith("C12WORKER ")), None)
     info = {"case": case, "FLOW_RECORD_IGNORE": value, "script": script}
-    if p.returncode != 0 or line is None:
-        ctx.violation(None, "worker under FLOW_RECORD_IGNORE=%r failed (exit %s)" % (value, p.returncode), detail=dict(info, stderr=p.stderr[-2500:], stdout=p.stdout[-300:]))
+
+    def worker(env_value, the_script):
+        env = dict(os.environ)
+        env.pop("FLOW_RECORD_IGNORE", None)
+        if env_value is not None:
+            env["FLOW_RECORD_IGNORE"] = env_value
+        pp = env.get("PYTHONPATH", "")
+        if VERIF_DIR not in pp.split(os.pathsep):
+            env["PYTHONPATH"] = VERIF_DIR + (os.pathsep + pp if pp else "")
+        env.setdefault("PYTHONHASHSEED", "0")
+        try:
+            p = subprocess.run([sys.executable, "-W", "ignore", "-m", "verif.worker_c12"], input=json.dumps(the_script), env=env, cwd=VERIF_DIR, capture_output=True, text=True,
+                               timeout=WORKER_TIMEOUT_S)
+        except subprocess.TimeoutExpired:
+            ctx.require(False, "a C12 environment worker exceeded its %d s watchdog" % WORKER_TIMEOUT_S)
+            return None
+        ctx.event("env_workers_run")
+        line = next((ln for ln in p.stdout.splitlines() if ln.startswith("C12WORKER ")), None)
+        if p.returncode != 0 or line is None:
+            ctx.violation(None, "worker under FLOW_RECORD_IGNORE=%r failed (exit %s)" % (env_value, p.returncode), detail=dict(info, stderr=p.stderr[-2500:], stdout=p.stdout[-300:]))
+            return None
+        res = json.loads(line[len("C12WORKER "):])
+        if res["env"] != env_value:
+            ctx.require(False, "environment was not propagated to a C12 worker: wanted %r got %r" % (env_value, res["env"]))
+            return None
+        repo = os.path.realpath(os.environ.get("VERIF_REPO", "/repo"))
+        ctx.require(os.path.realpath(res["flow_record_file"]).startswith(repo + os.sep), "C12 worker imported flow.record from %s, not from %s" % (res["flow_record_file"], repo))
+        return res
+
+    out = worker(value, script)
+    if out is None:
         return
-    out = json.loads(line[len("C12WORKER "):])
-    if out["env"] != value:
-        ctx.require(False, "environment was not propagated to a C12 worker: wanted %r got %r" % (value, out["env"]))
-        return
-    repo = os.path.realpath(os.environ.get("VERIF_REPO", "/repo"))
-    ctx.require(os.path.realpath(out["flow_record_file"]).startswith(repo + os.sep), "C12 worker imported flow.record from %s, not from %s" % (out["flow_record_file"], repo))
+    if value:
+        # the same set configured through the API in a process started without the variable must behave identically
+        api = worker(None, [["set", rng.choice(["list", "set", "tuple"]), sorted(default)], ["probe", "configured through the API"]])
+        if api is not None and not api["error"] and len(api["probes"]) == 1 and out["probes"]:
+            ctx.event("env_vs_api_compared")
+            a0, b0 = out["probes"][0], api["probes"][0]
+            diff = [k for k in ("config", "eq", "ne", "hash_eq", "same_eq", "same_hash_eq") if a0[k] != b0[k]]
+            if diff:
+                ctx.violation("environment-ignore-list-not-taken-literally", "FLOW_RECORD_IGNORE=%r does not behave like the same names configured through the API" % value,
+                              detail=dict(info, differs=diff, environment={k: a0[k] for k in diff}, api={k: b0[k] for k in diff}, names=sorted(default)))
     if out["error"] or len(out["probes"]) != len(expected):
         ctx.violation(None, "the ignore-configuration script raised under FLOW_RECORD_IGNORE=%r" % value, detail=dict(info, error=out["error"], probes=len(out["probes"])))
         return
@@ -1173,7 +1220,7 @@ def run_envignore(ctx, case):
         ctx.cell("env", repr(value), "expected-empty" if not exp else "expected-nonempty")
         ctx.nontrivial("envignore", value, pr["label"], case["s"])
         d = dict(info, where=pr["label"], expected_ignored=sorted(exp), observed_configuration=pr["config"], eq=pr["eq"], hash_eq=pr["hash_eq"])
-        key = None
+        key = "environment-ignore-list-not-taken-literally" if "initial" in pr["label"] else None
         if not exp and default and pr["config"] is not None and set(pr["config"]) == default and "initial" not in pr["label"]:
             key = KEY_ENV_EMPTY
         if pr["config"] is None:
